@@ -742,11 +742,13 @@ pub fn stress_round(prog: &Program, out: &mut dyn Write, id: usize, round: usize
     let mut snap = sut.mem.verif_snapshot();
     snap.sort_by(|a, b| a.0.cmp(&b.0));
     let bytes: u64 = snap.iter().map(|x| 24 + x.5.len() as u64).sum();
+    // (the counter is read together with the snapshot: the final reads below collect expired records)
+    let usage_now = sut.cache.memory_usage();
     let handler = BinaryHandler::new(store.clone());
     let gets = final_gets(prog, &handler);
     let sig = sig_of_events(n, &events, &gets);
     events.push(json!({"e": "final", "outcome": "Complete", "steps": 0, "sched": [], "parked": [], "bytes": bytes,
-        "usage": sut.cache.memory_usage().to_string(), "gets": gets, "phys": [], "sig": sig}));
+        "usage": usage_now.to_string(), "gets": gets, "phys": [], "sig": sig}));
     for e in &events {
         writeln!(out, "{}", e).unwrap();
     }
